@@ -541,7 +541,7 @@ fn random_cases(out: &mut impl Write, rng: &mut Rng, n: usize, maxops: usize, co
             8 => rng.range(41, 600) as usize,
             _ => rng.range(600, 4096) as usize,
         };
-        let ending = ENDINGS[if rng.chance(60) { 1 } else { rng.below(5) as usize }];
+        let ending = ENDINGS[if rng.chance(60) { 1 } else { rng.below(ENDINGS.len() as u64) as usize }];
         // keep a case below ~24 kB of payload so that the text protocol stays small
         let nops = (rng.range(1, maxops as u64) as usize).min(24000 / cap.max(8)).max(1);
         let failpct = *rng.pick(&[0u64, 0, 0, 5, 20, 60, 100]);
@@ -595,7 +595,7 @@ fn random_cases(out: &mut impl Write, rng: &mut Rng, n: usize, maxops: usize, co
 fn hostile(out: &mut impl Write, rng: &mut Rng, n: usize, count: &mut u64) {
     for _ in 0..n {
         let cap = rng.below(24) as usize;
-        let ending = ENDINGS[rng.below(5) as usize];
+        let ending = ENDINGS[rng.below(ENDINGS.len() as u64) as usize];
         let nops = rng.range(1, 12) as usize;
         let mut ops = Vec::new();
         for _ in 0..nops {
